@@ -234,6 +234,11 @@ def cli_leg(ck, tier, rnd):
             if gk != fk:
                 ck.violation('json-findings-differ', 'JSON findings differ from the rule under %s: extra %r missing %r' % (tag, sorted(gk - fk)[:3], sorted(fk - gk)[:3]), replay)
                 continue
+            # the recommendations are part of the findings: the JSON document names the ones the rule gives (the text report is held to the same set below)
+            rd = rating.compare_recs(c, exp, js=doc)
+            if rd:
+                ck.violation('json-recommendations-differ %s' % rd[0][0].split(' kind=')[0], 'recommendations in the JSON document under %s: %s' % (tag, '; '.join(d for _, d in rd[:3])), replay)
+                continue
         else:
             raw = r['stdout']
             if n and '\033[' in raw:
@@ -250,6 +255,11 @@ def cli_leg(ck, tier, rnd):
                 kind = 'added-or-altered' if extra else 'dropped'
                 ck.violation('text-findings %s level=%s' % (kind, lvl), 'findings under %s: extra %r, missing %r' % (tag, extra, missing), replay)
                 continue
+            if lvl == 'info' and not v:
+                rd = rating.compare_recs(c, exp, text=tx)
+                if rd:
+                    ck.violation('text-recommendations-differ %s' % rd[0][0].split(' kind=')[0], 'recommendations in the report under %s: %s' % (tag, '; '.join(d for _, d in rd[:3])), replay)
+                    continue
         ck.cov['traces_validated_against_impl'] += 1
     # colour only wraps: removing the colour codes from the coloured report gives the lines of the -n report
     for key, plain_key, replay in colour_pairs:
